@@ -57,6 +57,13 @@ async def _dump():
     d = {'ports': await f_ports.get_ports(h), 'device': await f_device.get_device(h)}
     if settings.slaves.enabled:
         d['devices'] = await f_devices.get_slave_devices(h)
+        for s in d['devices']:
+            # webhooks parameters cached for an offline slave (pending edits), as GET /devices/<name>/forward/webhooks
+            # answers them
+            try:
+                s['webhooks'] = await f_devices.slave_device_forward(FakeHandler(method='GET'), s['name'], '/webhooks')
+            except Exception:
+                s['webhooks'] = None
     return json.loads(json.dumps(d))      # plain JSON (tuples -> lists, etc.)
 
 
@@ -96,6 +103,14 @@ async def _run_op(op):
             await f_devices.put_slave_devices(FakeHandler(method='PUT'), copy.deepcopy(op[1]))
         elif kind == 'sfwd':
             await f_devices.slave_device_forward(FakeHandler(method='PATCH'), op[1], '/device', copy.deepcopy(op[2]))
+        elif kind == 'sfwdw':
+            await f_devices.slave_device_forward(FakeHandler(method='PATCH'), op[1], '/webhooks', copy.deepcopy(op[2]))
+        elif kind == 'failnext':
+            from harness import persist_c07
+            persist_c07.arm(op[1])
+        elif kind == 'disarm':
+            from harness import persist_c07
+            persist_c07.disarm()
         elif kind == 'sdel':
             await f_devices.delete_slave_device(h, op[1])
         elif kind == 'spatch':
@@ -125,10 +140,10 @@ async def _amain(spec, out):
     startup.logger = logging.getLogger('qtoggleserver')
     p = spec['persist']
     if p['driver'] == 'json':
-        settings.persist.driver = 'qtoggleserver.drivers.persist.JSONDriver'
+        settings.persist.driver = 'harness.persist_c07.FaultyJSONDriver'
         settings.persist.file_path = p['file_path']
     elif p['driver'] == 'redis':
-        settings.persist.driver = 'qtoggleserver.drivers.persist.RedisDriver'
+        settings.persist.driver = 'harness.persist_c07.FaultyRedisDriver'
         settings.persist.host = p['host']
         settings.persist.port = p['port']
         settings.persist.db = p.get('db', 0)
@@ -141,6 +156,8 @@ async def _amain(spec, out):
     settings.slaves.enabled = bool(spec.get('slaves', True))
     settings.frontend.enabled = False
     settings.core.persist_interval = int(spec.get('persist_interval', 2000))
+    if spec.get('virtual_ports'):
+        settings.core.virtual_ports = int(spec['virtual_ports'])
 
     # instrument the virtual-port driver: virtual ports are their own drivers
     from qtoggleserver.core import vports as core_vports
